@@ -198,6 +198,20 @@ class Setup:
             s = cls(**args)
             self.s = s
             self.dt = np.array(s._t.interval_lengths)
+            if kind != "flow" and getattr(W, "prior_history", True):
+                # the object has been computed before with another driver (the symbolic runs start from arbitrary
+                # previous results as well): compute once with a random driver, then put the inputs back
+                keep = {nm: np.array(getattr(s, nm).values, copy=True) for nm in ("stock", "inflow", "outflow")}
+                drv = "inflow" if kind == "inflow" else "stock"
+                getattr(s, drv).values[...] = np.array([3.0 + 5 * rng.random() for _ in range(keep[drv].size)]).reshape(keep[drv].shape)
+                try:
+                    with np.errstate(all="ignore"):
+                        s.compute()
+                except Exception:
+                    pass
+                for nm, v in keep.items():
+                    getattr(s, nm).values[...] = v
+                W.inputs["history" + tag] = "compute() ran once before with another driver"
             if kind != "flow":
                 self.sf = np.array(s.lifetime_model.sf)
                 self.pdf = np.array(s.lifetime_model.pdf)
